@@ -108,37 +108,38 @@ const (
 
 // Exec is one controlled execution.
 type Exec struct {
-	epoch    uint64
-	threads  []*thread
-	running  *thread
-	prefix   []int
-	Choices  []int
-	Points   []Point
-	nsteps   int
-	aborting bool
-	Outcome  string
-	Detail   string
-	PanicVal interface{}
-	PanicStk string
-	Blocked  []string // description of blocked threads at deadlock/livelock
-	Faults   []string
-	Races    []string
-	raceSeen map[string]bool
-	nextObj  int
-	done     chan struct{}
-	join     sync.WaitGroup
-	horizon  int
-	pollRuns int
-	stateSet map[uint64]struct{}
-	touched  map[uintptr]*varState
-	cfg      *Config
-	lastBeat time.Time
-	Log      []string
-	userData interface{}
-	finishedN int
-	hmu       sync.Mutex
-	helpers   map[uint64]*thread
-	vmu       sync.Mutex // protects touched/race state against helper goroutines
+	epoch      uint64
+	threads    []*thread
+	running    *thread
+	prefix     []int
+	Choices    []int
+	Points     []Point
+	nsteps     int
+	aborting   bool
+	Outcome    string
+	Detail     string
+	PanicVal   interface{}
+	PanicStk   string
+	Blocked    []string // description of blocked threads at deadlock/livelock
+	Faults     []string
+	Races      []string
+	RaceDetail []string // the same races with line numbers (for messages, not for keys)
+	raceSeen   map[string]bool
+	nextObj    int
+	done       chan struct{}
+	join       sync.WaitGroup
+	horizon    int
+	pollRuns   int
+	stateSet   map[uint64]struct{}
+	touched    map[uintptr]*varState
+	cfg        *Config
+	lastBeat   time.Time
+	Log        []string
+	userData   interface{}
+	finishedN  int
+	hmu        sync.Mutex
+	helpers    map[uint64]*thread
+	vmu        sync.Mutex // protects touched/race state against helper goroutines
 }
 
 // Config tunes the scheduler.
@@ -146,6 +147,7 @@ type Config struct {
 	PointAtRelease bool // also make Unlock/Done scheduling points
 	Horizon        int
 	NoTouchPoints  bool // Touch only feeds the race check, is not a point
+	NoFieldNotes   bool // ignore Access (field accesses of lock-carrying structs)
 	States         map[uint64]struct{}
 }
 
@@ -1247,10 +1249,12 @@ type access struct {
 }
 
 type varState struct {
-	id     int
-	lastW  access
-	hasW   bool
-	reads  []access
+	id    int
+	lastW access
+	hasW  bool
+	reads []access
+	pin   interface{}
+	label string
 }
 
 // Touch marks an access to a mutable shared variable (identified by address).
@@ -1291,6 +1295,47 @@ func Touch(addr interface{}, write bool) {
 	e.vmu.Unlock()
 }
 
+// Access marks an access to a field of a lock-carrying struct. It is NOT a
+// scheduling point: it only feeds the happens-before race check, which flags
+// the access when it is not ordered by the modelled synchronisation after the
+// previous conflicting access of another thread - in whatever schedule the two
+// accesses were observed. get evaluates the field's address; a nil receiver on
+// a path the statement would not have taken is ignored.
+func Access(get func() interface{}, write bool, label string) {
+	e := cur
+	if e == nil || e.aborting || e.cfg.NoFieldNotes {
+		return
+	}
+	var addr interface{}
+	func() {
+		defer func() { recover() }()
+		addr = get()
+	}()
+	if addr == nil {
+		return
+	}
+	a := ptrOf(addr)
+	if a == 0 {
+		return
+	}
+	pc := callerPC(2)
+	t := e.helperOwner()
+	e.vmu.Lock()
+	if t == nil {
+		t = e.running
+	}
+	if t != nil {
+		vs := e.touched[a]
+		if vs == nil {
+			// keep the object alive so that its address is not reused within the execution
+			vs = &varState{id: e.newObj(), pin: addr, label: label}
+			e.touched[a] = vs
+		}
+		e.touchCheck(t, a, write, pc)
+	}
+	e.vmu.Unlock()
+}
+
 func (e *Exec) touchCheck(t *thread, a uintptr, write bool, pc uintptr) {
 	vs := e.touched[a]
 	if vs == nil {
@@ -1298,12 +1343,12 @@ func (e *Exec) touchCheck(t *thread, a uintptr, write bool, pc uintptr) {
 		e.touched[a] = vs
 	}
 	if vs.hasW && vs.lastW.tid != t.id && vs.lastW.clk > t.vc.get(vs.lastW.tid) {
-		e.race(vs.lastW.site, pc, true, write)
+		e.race(vs.lastW.site, pc, true, write, vs.label)
 	}
 	if write {
 		for _, r := range vs.reads {
 			if r.tid != t.id && r.clk > t.vc.get(r.tid) {
-				e.race(r.site, pc, false, true)
+				e.race(r.site, pc, false, true, vs.label)
 			}
 		}
 		vs.reads = vs.reads[:0]
@@ -1323,7 +1368,7 @@ func (e *Exec) touchCheck(t *thread, a uintptr, write bool, pc uintptr) {
 	}
 }
 
-func (e *Exec) race(a, b uintptr, aw, bw bool) {
+func (e *Exec) race(a, b uintptr, aw, bw bool, label string) {
 	rw := func(w bool) string {
 		if w {
 			return "write"
@@ -1336,12 +1381,16 @@ func (e *Exec) race(a, b uintptr, aw, bw bool) {
 		s1, s2 = s2, s1
 	}
 	k := s1 + " / " + s2
+	if label != "" {
+		k = label + ": " + k
+	}
 	if e.raceSeen == nil {
 		e.raceSeen = map[string]bool{}
 	}
 	if !e.raceSeen[k] {
 		e.raceSeen[k] = true
 		e.Races = append(e.Races, k)
+		e.RaceDetail = append(e.RaceDetail, rw(aw)+" at "+SiteFunc(a)+" is not ordered before "+rw(bw)+" at "+SiteFunc(b))
 	}
 }
 
